@@ -161,3 +161,153 @@ Proof.
     destruct (stroke_color st) as [sc|], (fill_color st) as [fc|], (0 <? W) eqn:EW;
     unfold render; cbn [app fold_left fst snd]; rewrite ?contains_b; cbn [tl sz px py sw sh]; rect_cases.
 Qed.
+
+(* ---- the two areas of a rectangle ---- *)
+Lemma rect_sok_ok r : rect_sok r -> rect_ok r.
+Proof. intros [[? ?] [? ?]]. unfold rect_ok, point_ok, size_ok, sbound, bound in *. lia. Qed.
+
+Lemma rect_offset_ok r n : rect_sok r -> - sbound <= n <= sbound -> rect_ok (offset r n).
+Proof.
+  intros Hr Hn. destruct r as [[x y] [w h]]. unfold rect_sok, point_sok, size_sok, sbound in *. unf.
+  destruct (0 <=? n) eqn:E; cbn [tl sz px py sw sh]; lia.
+Qed.
+
+Lemma rect_areas_ok r st :
+  rect_sok r -> style_ok st -> rect_ok (rect_stroke_area r st) /\ rect_ok (rect_fill_area r st).
+Proof.
+  intros Hr Hs. destruct (offsets_range st Hs) as (E1 & R1 & R2 & E2). unfold rect_stroke_area, rect_fill_area.
+  rewrite E1, E2. split; apply rect_offset_ok; try assumption; destruct (stroke_kind st); unfold sbound in *; lia.
+Qed.
+
+Lemma rect_fill_sub_stroke r st p :
+  rect_sok r -> style_ok st -> stroke_kind st = Solid ->
+  contains (rect_fill_area r st) p = true -> contains (rect_stroke_area r st) p = true.
+Proof.
+  intros [Hp [Hw Hh]] Hs Hk. destruct (offsets_range st Hs) as (E1 & R1 & R2 & E2). rewrite Hk in E2.
+  unfold rect_stroke_area, rect_fill_area. rewrite E1, E2, !offset_1d, !contains_spec. cbn [tl sz px py sw sh].
+  pose proof (dim_open (px (tl r)) (sw (sz r)) _ _ Hw R1 R2) as Ox.
+  pose proof (dim_open (py (tl r)) (sh (sz r)) _ _ Hh R1 R2) as Oy. cbv zeta in *.
+  intros [H1 H2]. specialize (Ox ltac:(lia)). specialize (Oy ltac:(lia)). lia.
+Qed.
+
+(* ---- pixels() of the styled rectangle ---- *)
+Theorem rect_pixels_spec r st p :
+  rect_sok r -> style_ok st -> stroke_kind st = Solid ->
+  last_write (rect_styled_pixels r st) p =
+  styled_map (contains (rect_fill_area r st)) (contains (rect_stroke_area r st)) st p.
+Proof.
+  intros Hr Hs Hk. destruct (rect_areas_ok r st Hr Hs) as [HA HB].
+  pose proof (rect_fill_sub_stroke r st p Hr Hs Hk) as Hsub.
+  assert (Hw0 : (0 <? stroke_width st) = false -> rect_stroke_area r st = rect_fill_area r st).
+  { intros E. assert (stroke_width st = 0) as Ew by (unfold style_ok in Hs; lia).
+    unfold rect_stroke_area, rect_fill_area. destruct (offsets_zero st Ew) as [-> ->]. reflexivity. }
+  assert (Hin : forall c, In (p, c) (rect_styled_pixels r st) <->
+            is_transparent st = false /\ contains (rect_stroke_area r st) p = true /\
+            (if contains (rect_fill_area r st) p then fill_color st else stroke_color st) = Some c).
+  { intros c. unfold rect_styled_pixels. rewrite in_flat_map. split.
+    - intros (q & Hq & Hc). destruct (is_transparent st); [destruct Hq|]. cbn [negb] in Hq.
+      apply points_spec in Hq; [|assumption].
+      destruct (if contains (rect_fill_area r st) q then fill_color st else stroke_color st) as [c'|] eqn:E; [|destruct Hc].
+      destruct Hc as [Hc|[]]. inversion Hc; subst. auto.
+    - intros (Ht & HS & Hc). exists p. rewrite Ht. cbn [negb]. split; [apply points_spec; assumption|].
+      rewrite Hc. left. reflexivity. }
+  apply last_write_char.
+  - intros c Hc. apply Hin in Hc. destruct Hc as (Ht & HS & Hc). unfold styled_map.
+    destruct (contains (rect_fill_area r st) p) eqn:EF; [exact Hc|]. rewrite HS.
+    destruct (0 <? stroke_width st) eqn:EW; [exact Hc|]. rewrite Hw0 in HS by reflexivity. congruence.
+  - unfold styled_map. intros Hn.
+    destruct (contains (rect_fill_area r st) p) eqn:EF.
+    + destruct (fill_color st) as [fc|] eqn:Efc; [|congruence]. exists fc. apply Hin. rewrite ?EF.
+      split; [unfold is_transparent; rewrite Efc; apply andb_false_r|]. split; [apply Hsub; reflexivity|reflexivity].
+    + destruct (contains (rect_stroke_area r st) p) eqn:ES; [|cbn in Hn; congruence].
+      destruct (0 <? stroke_width st) eqn:EW; [|cbn in Hn; congruence].
+      destruct (stroke_color st) as [sc|] eqn:Esc; [|cbn in Hn; congruence]. exists sc. apply Hin. rewrite ?EF, ?ES.
+      split; [|split; reflexivity]. unfold is_transparent. rewrite Esc.
+      assert ((stroke_width st =? 0) = false) as -> by lia. reflexivity.
+Qed.
+
+(* pixels() yields no point twice *)
+Lemma flat_map_option_nodup {A B} (g : A -> list (A * B)) l :
+  (forall a, g a = [] \/ exists b, g a = [(a, b)]) -> NoDup l -> NoDup (map fst (flat_map g l)).
+Proof.
+  intros Hg. induction 1 as [|a l Hnin Hnd IH]; cbn [flat_map map]; [constructor|].
+  rewrite map_app. destruct (Hg a) as [->|[b ->]]; cbn [map app fst]; [exact IH|].
+  constructor; [|exact IH]. intros Hin. apply Hnin. apply in_map_iff in Hin. destruct Hin as ([q c] & Hq & Hin).
+  cbn [fst] in Hq. subst q. apply in_flat_map in Hin. destruct Hin as (a' & Ha' & Hin).
+  destruct (Hg a') as [E|[b' E]]; rewrite E in Hin; [destruct Hin|]. destruct Hin as [Hin|[]]. inversion Hin; subst. exact Ha'.
+Qed.
+
+Theorem rect_pixels_nodup r st :
+  rect_sok r -> style_ok st -> NoDup (map fst (rect_styled_pixels r st)).
+Proof.
+  intros Hr Hs. destruct (rect_areas_ok r st Hr Hs) as [HA HB]. unfold rect_styled_pixels.
+  apply flat_map_option_nodup.
+  - intros q. destruct (if contains (rect_fill_area r st) q then fill_color st else stroke_color st) as [c|];
+      [right; exists c; reflexivity|left; reflexivity].
+  - destruct (negb (is_transparent st)); [apply points_nodup; assumption|constructor].
+Qed.
+
+(* ---- geometry of the two areas ---- *)
+Theorem rect_stroke_area_grow r st :
+  rect_sok r -> style_ok st -> 1 <= sw (sz r) -> 1 <= sh (sz r) ->
+  rect_stroke_area r st =
+  R (P (px (tl r) - outside_stroke_width st) (py (tl r) - outside_stroke_width st))
+    (S (sw (sz r) + 2 * outside_stroke_width st) (sh (sz r) + 2 * outside_stroke_width st)).
+Proof.
+  intros [Hp [Hw Hh]] Hs Hw1 Hh1. destruct (offsets_range st Hs) as (E1 & R1 & R2 & _).
+  unfold rect_stroke_area. rewrite E1, offset_1d.
+  destruct (dim_forms (px (tl r)) (sw (sz r)) _ _ Hw R1 R2) as (A1 & _ & A3 & _).
+  destruct (dim_forms (py (tl r)) (sh (sz r)) _ _ Hh R1 R2) as (B1 & _ & B3 & _).
+  rewrite A1, B1, A3, B3 by assumption. reflexivity.
+Qed.
+
+Theorem rect_fill_area_shrink r st :
+  rect_sok r -> style_ok st -> stroke_kind st = Solid ->
+  let ins := inside_stroke_width st in
+  let fa := rect_fill_area r st in
+  (2 * ins < sw (sz r) -> px (tl fa) = px (tl r) + ins /\ sw (sz fa) = sw (sz r) - 2 * ins) /\
+  (2 * ins < sh (sz r) -> py (tl fa) = py (tl r) + ins /\ sh (sz fa) = sh (sz r) - 2 * ins) /\
+  (sw (sz r) <= 2 * ins \/ sh (sz r) <= 2 * ins -> forall p, contains fa p = false).
+Proof.
+  intros [Hp [Hw Hh]] Hs Hk ins fa. destruct (offsets_range st Hs) as (E1 & R1 & R2 & E2). rewrite Hk in E2.
+  subst fa. unfold rect_fill_area. rewrite E2, offset_1d. fold ins in R2 |- *. cbn [tl sz px py sw sh].
+  destruct (dim_forms (px (tl r)) (sw (sz r)) _ _ Hw R1 R2) as (_ & A2 & _ & A4).
+  destruct (dim_forms (py (tl r)) (sh (sz r)) _ _ Hh R1 R2) as (_ & B2 & _ & B4).
+  split; [|split].
+  - intros H. rewrite A2, A4 by assumption. lia.
+  - intros H. rewrite B2, B4 by assumption. lia.
+  - intros H p. destruct (contains _ p) eqn:E; [|reflexivity]. apply contains_spec in E. cbn [tl sz px py sw sh] in E. lia.
+Qed.
+
+Lemma rect_stroke_area_inside r st :
+  rect_sok r -> stroke_alignment st = Inside -> rect_stroke_area r st = r.
+Proof.
+  intros Hr Ha. unfold rect_stroke_area, stroke_area_offset, outside_stroke_width. rewrite Ha.
+  apply offset_zero, rect_sok_ok, Hr.
+Qed.
+
+Lemma rect_fill_area_outside r st :
+  rect_sok r -> stroke_alignment st = Outside -> rect_fill_area r st = r.
+Proof.
+  intros Hr Ha. unfold rect_fill_area, fill_area_offset, inside_stroke_width. rewrite Ha.
+  destruct (stroke_kind st); apply offset_zero, rect_sok_ok, Hr.
+Qed.
+
+Theorem rect_inside_stroke_stays_in r st p :
+  rect_sok r -> style_ok st -> stroke_kind st = Solid -> stroke_alignment st = Inside ->
+  render (rect_draw_styled r st) p <> None -> contains r p = true.
+Proof.
+  intros Hr Hs Hk Ha. rewrite rect_styled_spec by assumption.
+  pose proof (rect_fill_sub_stroke r st p Hr Hs Hk) as Hsub. unfold styled_map.
+  rewrite rect_stroke_area_inside in * by assumption.
+  destruct (contains (rect_fill_area r st) p); [intros _; apply Hsub; reflexivity|].
+  destruct (contains r p); [reflexivity|]. cbn. congruence.
+Qed.
+
+Theorem rect_outside_stroke_stays_out r st p :
+  rect_sok r -> style_ok st -> stroke_kind st = Solid -> stroke_alignment st = Outside ->
+  contains r p = true -> render (rect_draw_styled r st) p = fill_color st.
+Proof.
+  intros Hr Hs Hk Ha Hp. rewrite rect_styled_spec by assumption. unfold styled_map.
+  rewrite rect_fill_area_outside by assumption. rewrite Hp. reflexivity.
+Qed.
